@@ -103,4 +103,17 @@ PROPS = {
         level_text="Generated-input search plus a complete table of single mutations (kind x member x {delete, null, retype, rename, duplicate} and element/root/op-string changes): DecodePatch must accept exactly what the independent reader and validator accept, return a nil Patch on reject, and the accessors must return the decoded members (numbers by literal). Exploration; the table is complete for single mutations of the listed kinds only.",
         level_note="Trusted: harness/ref reader and the validator in c11 (written from the property statement). Duplicated members whose first and last occurrence disagree are ambiguous and excluded; the text null is outside the domain.",
     ),
+    "C18": dict(
+        pkg="c18", units=[rapid("TestProp", 15000, 200000)], assumptions=COMMON_ASSUME + ["the legacy root package is staged from /repo's working tree as module github.com/evanphx/json-patch (it has no go.mod of its own)"],
+        technique="property-based testing (rapid): the C01 generator and RFC 6902 reference evaluator against the staged legacy package, restricted to what v4 claims",
+        level_text="Generated-input search against a staged copy of the root package: all-applicable patches must succeed with the RFC result up to member order and with number literals intact; a first failure that is a failed test, a remove/move of an absent location, an out-of-range or negative-while-off index must give an error and no document. Exploration only.",
+        level_note="Trusted: harness/ref. Excluded (counted): root-replacing add, copy from \"\", test values whose strings need escaping or hold <,>,&, and first failures v4 does not claim to report (e.g. replace/copy of an absent member, which v4 accepts).",
+    ),
+    "C19": dict(
+        pkg="c19", units=[rapid("TestPropMerge", 10000, 100000), rapid("TestPropCreate", 10000, 100000), rapid("TestPropCompose", 10000, 100000), rapid("TestPropEqual", 10000, 100000)],
+        assumptions=COMMON_ASSUME + ["the legacy root package is staged from /repo's working tree as module github.com/evanphx/json-patch"],
+        technique="property-based testing (rapid): the C02/C03/C06/C07 oracles (RFC 7396 reference, create->apply round trip + minimality, composition law, structural equality) against the staged legacy package in v4's domains",
+        level_text="Generated-input search against a staged copy of the root package: MergePatch vs the RFC 7396 reference for object/array patches, CreateMergePatch round trip and minimality for float64-spelled numbers, the MergeMergePatches composition law, and Equal vs structural equality on escape-free object/array texts. Exploration only.",
+        level_note="Trusted: harness/ref and harness/laws. Domains restricted exactly as the property states (numbers as Go prints a float64, no escape sequences for Equal, object/array patches).",
+    ),
 }
